@@ -33,9 +33,11 @@ Providers == {[t |-> "link", src |-> s, dst |-> d, sm |-> sm, dm |-> dm, p |-> "
              \cup {[t |-> "plink", src |-> "-", dst |-> d, sm |-> "any", dm |-> dm, p |-> p] : d \in Names, dm \in {"any", "nested"}, p \in ParamNames}
              \cup {[t |-> "const", src |-> "-", dst |-> d, sm |-> "any", dm |-> dm, p |-> "-"] : d \in Names, dm \in {"any", "top"}}
              \cup {[t |-> "func", src |-> "-", dst |-> d, sm |-> "any", dm |-> "top", p |-> "-"] : d \in Names}
+             \* allow_unlinked_optional(P[..].dst): an optional destination field without a source keeps its default
+             \cup {[t |-> "allow", src |-> "-", dst |-> d, sm |-> "any", dm |-> "any", p |-> "-"] : d \in Names}
 
-VARIABLES SF, SN, DF, DN, PS, recipe, st
-vars == <<SF, SN, DF, DN, PS, recipe, st>>
+VARIABLES SF, SN, DF, DN, PS, recipe, st, DO
+vars == <<SF, SN, DF, DN, PS, recipe, st, DO>>
 
 \* sources visible when the destination field at `level` is built
 SrcFields(level) == IF level = "top" THEN SF ELSE SN
@@ -47,11 +49,13 @@ Par(p) == [k |-> "param", level |-> "-", n |-> p]
 Const == [k |-> "const", level |-> "-", n |-> "-"]
 Func == [k |-> "func", level |-> "-", n |-> "-"]
 None == [k |-> "none", level |-> "-", n |-> "-"]
+Dflt == [k |-> "default", level |-> "-", n |-> "-"]
 
 \* what a link provider yields for destination field f at level (None = it does not apply)
 Apply(pr, level, f) ==
   IF pr.dst # f \/ ~MatchesLevel(pr.dm, level) THEN None
-  ELSE CASE pr.t = "const" -> Const
+  ELSE CASE pr.t = "allow" -> None                 \* a policy, not a link
+         [] pr.t = "const" -> Const
          [] pr.t = "func" -> Func
          [] pr.t = "plink" -> IF InParams(pr.p) THEN Par(pr.p) ELSE None
          [] pr.t = "link" ->
@@ -69,7 +73,10 @@ Default(level, f) ==
 RECURSIVE FirstLink(_, _, _)
 FirstLink(i, level, f) == IF i > Len(recipe) THEN Default(level, f)
                           ELSE LET r == Apply(recipe[i], level, f) IN IF r # None THEN r ELSE FirstLink(i + 1, level, f)
-Plan(level, f) == FirstLink(1, level, f)
+Allowed(f) == \E i \in 1..Len(recipe) : recipe[i].t = "allow" /\ recipe[i].dst = f
+\* DO = the optional top-level destination fields (they have a default)
+Plan(level, f) == LET r == FirstLink(1, level, f) IN
+                  IF r = None /\ level = "top" /\ f \in DO /\ Allowed(f) THEN Dflt ELSE r
 
 HasNested == NestedField \in DF
 Creatable == /\ \A f \in DF \ {NestedField} : Plan("top", f) # None
@@ -77,15 +84,16 @@ Creatable == /\ \A f \in DF \ {NestedField} : Plan("top", f) # None
                              /\ \A f \in DN : Plan("nested", f) # None
 
 Init == /\ st = "build" /\ recipe = <<>>
-        /\ SF \in {{"a", "b", NestedField}, {"a", "b", "c", NestedField}}
+        /\ SF \in {{"a", "b", NestedField}, {"a", "b", "c", NestedField}, {"a", "c", NestedField}}
         /\ SN \in {{"a", "b"}, {"a", "c"}}
-        /\ DF \in {{"a", "b"}, {"a", "c", NestedField}, {"b", "c"}, {"a", NestedField}}
+        /\ DF \in {{"a", "b"}, {"a", "c", NestedField}, {"b", "c"}, {"a", NestedField}, {"a", "b", "c"}}
+        /\ DO \in {{}, {"b", "c"}} /\ (DO # {} => DF = {"a", "b", "c"})
         /\ DN \in {{"a"}, {"a", "b"}, {"b", "c"}}
         /\ PS \in {<<>>, <<"p">>, <<"a">>, <<"p", "a">>, <<"a", "b">>}
 AddProvider == /\ st = "build" /\ Len(recipe) < MaxRecipe
                /\ \E pr \in Providers : recipe' = Append(recipe, pr)
-               /\ UNCHANGED <<SF, SN, DF, DN, PS, st>>
-Finish == /\ st = "build" /\ st' = "case" /\ UNCHANGED <<SF, SN, DF, DN, PS, recipe>>
+               /\ UNCHANGED <<SF, SN, DF, DN, PS, st, DO>>
+Finish == /\ st = "build" /\ st' = "case" /\ UNCHANGED <<SF, SN, DF, DN, PS, recipe, DO>>
 Next == AddProvider \/ Finish
 
 (* ------------------------------ properties ------------------------------------------------ *)
@@ -100,7 +108,7 @@ ParamBeatsFieldTopOnly == st = "case" /\ recipe = <<>> =>
    /\ \A f \in DF \ {NestedField} : InParams(f) => Plan("top", f) = Par(f)
    /\ \A f \in DN : Plan("nested", f).k # "param"
 
-CaseRecord == [SF |-> SF, SN |-> SN, DF |-> DF, DN |-> DN, PS |-> PS, recipe |-> recipe, creatable |-> Creatable,
+CaseRecord == [SF |-> SF, SN |-> SN, DF |-> DF, DN |-> DN, PS |-> PS, DO |-> DO, recipe |-> recipe, creatable |-> Creatable,
                top |-> [f \in DF \ {NestedField} |-> Plan("top", f)],
                nested |-> IF HasNested THEN [f \in DN |-> Plan("nested", f)] ELSE <<>>]
 EmitCase == (st = "case" /\ EmitCases) => PrintT(ToJson(CaseRecord))
